@@ -2,7 +2,10 @@
 //! usage: opwmc <Cnn> quick|thorough        opwmc <Cnn> --replay <file>
 
 mod common;
+mod c01;
+mod c02;
 mod c03;
+mod c06;
 
 use common::ev::{Ctx, Report, Tier};
 use std::time::Instant;
@@ -11,7 +14,12 @@ type RunFn = fn(&Ctx) -> Report;
 type ReplayFn = fn(&serde_json::Value) -> Vec<String>;
 
 fn table() -> Vec<(&'static str, RunFn, ReplayFn)> {
-    vec![("C03", c03::run as RunFn, c03::replay as ReplayFn)]
+    vec![
+        ("C01", c01::run as RunFn, c01::replay as ReplayFn),
+        ("C02", c02::run as RunFn, c02::replay as ReplayFn),
+        ("C03", c03::run as RunFn, c03::replay as ReplayFn),
+        ("C06", c06::run as RunFn, c06::replay as ReplayFn),
+    ]
 }
 
 fn main() {
